@@ -109,6 +109,8 @@ def check(run):
         for b in bad:
             run.violation("sequential call history replay: " + b["why"], {"kind": "calls_behaviour", "behaviour": h, "index": 100000 + idx, "discrepancy": b})
     run.extra["sequential_histories_replayed"] = len(hs)
+    # histories over related inputs (both modes), judged call by call
+    ce.related_input_histories(run, 600 if quick else 10000)
     # line-level pre-emption schedules
     ce.preemption_schedules(run, quick)
     # wrap isolation at every depth
